@@ -4,7 +4,7 @@
 # suite still passes with it, and the demonstration fails with it and passes without it.
 d=$(readlink -f "$1")
 wt=/tmp/confirm_wt_$$
-export CARGO_TARGET_DIR=/tmp/confirm_target
+export CARGO_TARGET_DIR=${CONFIRM_TARGET:-/tmp/confirm_target}
 git -C /repo worktree add -q --detach $wt HEAD || exit 3
 cleanup() { git -C /repo worktree remove --force $wt; }
 trap cleanup EXIT
